@@ -236,6 +236,21 @@ type badDup struct {
 type badOpt struct {
 	A string `plenc:"1,flat"`
 }
+type badDup64 struct {
+	A int `plenc:"64"`
+	B int `plenc:"64"`
+}
+type badDup1000 struct {
+	A int    `plenc:"3"`
+	B string `plenc:"1000"`
+	C int    `plenc:"1000"`
+}
+type badPtrMapProto struct {
+	A *map[string]int `plenc:"1,proto"`
+}
+type badMapMapProto struct {
+	A map[string]map[string]int `plenc:"1,proto"`
+}
 
 // okMapSliceVal: nestings that look unusual but are supported must work.
 type okMapSliceVal struct {
@@ -267,7 +282,7 @@ func mustReject(p *plenc.Plenc, v interface{}) {
 func H08u_Kinds() {
 	p := new(plenc.Plenc)
 	p.RegisterDefaultCodecs()
-	switch vrt.Choice("type", 21) {
+	switch vrt.Choice("type", 25) {
 	case 0:
 		mustReject(p, badC64{})
 	case 1:
@@ -310,6 +325,14 @@ func H08u_Kinds() {
 		mustRejectOrWork(p, &badPtrPtrFloats{})
 	case 20:
 		mustReject(p, badPtrFloat32s{})
+	case 21:
+		mustReject(p, badDup64{})
+	case 22:
+		mustReject(p, badDup1000{})
+	case 23:
+		mustReject(p, badPtrMapProto{})
+	case 24:
+		mustReject(p, badMapMapProto{})
 	}
 }
 
